@@ -550,6 +550,17 @@ def M_into_iter(it, ctx, args, st):
     yield st, as_iter(it, st, v)
 
 
+def is_model_iter(st, v):
+    v = st.deref_all(v) if isinstance(v, Ptr) else v
+    return isinstance(v, Agg) and v.name == 'It'
+
+
+def is_seq_ptr(st, v):
+    if isinstance(v, (Seq, Enum)):
+        return isinstance(v, Seq) or v.decl.name == 'Option'
+    return isinstance(v, Ptr) and isinstance(st.deref(v), (Seq, BStr))
+
+
 def M_iter_next(it, ctx, args, st):
     p = args[0]
     itv = st.deref(p)
@@ -1173,11 +1184,12 @@ MODELS = [
     (ITER + r'find::<.*>', M_find), (ITER + r'fold::<.*>', M_fold), (ITER + r'try_fold::<.*>', M_try_fold),
     (ITER + r'max_by::<.*>', M_max_by),
     (r'<' + P + r'(slice::Iter|iter::\w+|str::Chars|vec::IntoIter|collections::btree_set::Iter|collections::btree_map::Iter)<.*> as ' + P + r'iter::Iterator>::next', M_iter_next),
-    (r'<.* as ' + P + r'iter::IntoIterator>::into_iter', M_into_iter),
+    (r'<.* as ' + P + r'iter::Iterator>::next', M_iter_next, lambda it, ctx, args, st: is_model_iter(st, args[0])),
+    (r'<.* as ' + P + r'iter::IntoIterator>::into_iter', M_into_iter, lambda it, ctx, args, st: is_model_iter(st, args[0]) or is_seq_ptr(st, args[0])),
     (P + r'slice::<impl \[.*\]>::iter', M_slice_iter), (P + r'slice::<impl \[.*\]>::sort_by::<.*>', M_sort_by),
     (P + r'slice::<impl \[.*\]>::len', M_vec_len), (P + r'slice::<impl \[.*\]>::is_empty', M_vec_is_empty),
     (P + r'slice::<impl \[.*\]>::contains', M_slice_contains),
-    (P + r'collections::BTreeSet::<.*>::iter', M_slice_iter),
+    (P + r'collections::BTreeSet::<.*>::iter', M_slice_iter), (P + r'collections::HashMap::<.*>::values', M_slice_iter),
     (P + r'vec::Vec::<.*>::new', M_vec_new), (P + r'vec::Vec::<.*>::len', M_vec_len), (P + r'vec::Vec::<.*>::is_empty', M_vec_is_empty),
     (P + r'vec::Vec::<.*>::push', M_vec_push),
     (r'<' + P + r'vec::Vec<.*> as ' + P + r'ops::Deref(Mut)?>::deref(_mut)?', M_vec_deref),
